@@ -31,6 +31,10 @@ type Solver struct {
 	Queries int
 	Time    time.Duration
 	timeout int // ms per query
+	depth   int // number of decision scopes currently pushed
+	replay  bool // inside the shared decision prefix: assertions are already in the solver
+	sinceReset int
+	Broken  bool
 }
 
 func NewSolver(bin ...string) *Solver {
@@ -65,6 +69,7 @@ func (s *Solver) preamble() {
 	} else {
 		s.raw(fmt.Sprintf("(set-option :timeout %d)", s.timeout))
 	}
+	s.raw("(set-option :global-declarations true)")
 }
 
 func (s *Solver) raw(str string) {
@@ -83,22 +88,61 @@ func (s *Solver) Close() {
 	}
 }
 
-// Reset forgets the path condition (start of a new path).
+// StartPath prepares the solver for a path that shares its first `shared` decisions
+// with the previous path of this worker (DESIGN §3.2: the context is kept across
+// paths by push/pop back to the longest common decision prefix). shared < 0 forces a reset.
+func (s *Solver) StartPath(shared int) {
+	s.pending = s.pending[:0]
+	s.sinceReset++
+	if shared < 0 || shared > s.depth || s.sinceReset > 3000 || s.Broken {
+		s.Reset()
+		s.replay = false
+		return
+	}
+	if s.depth > shared {
+		s.raw(fmt.Sprintf("(pop %d)", s.depth-shared))
+		s.depth = shared
+	}
+	// assertions made before decision `shared` is reached are already in the solver
+	s.replay = true
+}
+
+// Decision marks decision number idx of the path (0-based) as being taken.
+func (s *Solver) Decision(idx int) {
+	if s.replay {
+		if idx < s.depth {
+			return
+		}
+		// the first decision that differs from the previous path: from here on assert for real
+		s.replay = false
+		s.pending = s.pending[:0]
+	}
+	s.flush()
+	s.raw("(push 1)")
+	s.depth++
+}
+
+// Reset forgets everything.
 func (s *Solver) Reset() {
 	s.pending = s.pending[:0]
+	s.depth = 0
+	s.sinceReset = 0
+	s.Broken = false
+	s.replay = false
 	if !s.sent {
 		return
 	}
 	s.script = nil
 	s.raw("(reset)")
 	s.preamble()
+	s.ndef = 0
 	s.decl = map[string]bool{}
 	s.defined = map[*Term]string{}
 	s.sent = false
 }
 
 func (s *Solver) Assert(t *Term) {
-	if t.IsTrue() {
+	if t.IsTrue() || s.replay {
 		return
 	}
 	s.pending = append(s.pending, t)
@@ -177,6 +221,7 @@ func (s *Solver) Check(extra ...*Term) string {
 		// drain nothing more; treat as inconclusive. A dead solver is restarted.
 		if strings.Contains(res, "died") {
 			s.start()
+			s.Broken = true
 			return "unknown"
 		}
 		s.raw("(pop 1)")
